@@ -312,6 +312,10 @@ DIRECTED = [
     ("all(y > 1 for y in xs if y != 5 if 10 // (y - 5) < 100)", ["xs"], {"xs": [7, 5, 0]}),
     ("all(len(v) < 3 for v in [xs, ys])", ["xs", "ys"], {"xs": list(range(40)), "ys": [1]}),
     ("all(v != s for v in [CS, s])", ["s"], {"s": "abcxyz" * 12}),
+    # the reported example goes through the same (abbreviating) repr as every other value
+    ("all(len(v) < 3 for v in [ys, xs])", ["xs", "ys"], {"xs": list(range(70)), "ys": [1]}),
+    ("all(v != s for v in [CS, s])", ["s"], {"s": "abcxyz" * 60}),
+    ("all(len(v) < k for v, k in [(ys, 3), (xs, 3)])", ["xs", "ys"], {"xs": list(range(70)), "ys": [1]}),
     ("{'a': x, **d0}['a'] + {**d0, **{'a': n}}['a'] > 1000", ["x", "n"], {"x": 7, "n": 9}),
     ("sorted({**{'k': x}, 'k': n, **{'j': 1}}.items()) == [('j', 2)]", ["x", "n"], {"x": 7, "n": 9}),
     ("(n := len(xs)) > 0 and sum(xs[:n]) > 1000", ["n", "xs"], {"xs": [1, 2, 3], "n": 1}),
